@@ -25,7 +25,9 @@ LEVEL_TEXT = (
     "a task is fired every dependency is a data node or finished and its denoted value is in the cache "
     "(deps_finished_before_start), the task function is applied to exactly its dependencies' values "
     "(data_passed_is_deps), and the batching arithmetic of fire_tasks neither loses nor duplicates a popped task "
-    "(fire_submits_all). The *_full versions hold for the state start_state_from_dask really builds (Sched.startState_ok).")
+    "(fire_submits_all). The *_full versions hold for the state start_state_from_dask really builds "
+    "(Sched.startState_ok); executed_iff_reachable_task: on success the fired keys are exactly the tasks reachable "
+    "from the requested keys along dependencies, each fired and completed once; never_run_unreachable.")
 LEVEL_NOTE = (
     "Wall-clock ordering inside real thread/process pools is not modelled (adversarial completion order is); it "
     "is checked on the real code only (`threaded` section: start(k) >= stop(dep) with perf_counter). Trusted: Lean "
